@@ -29,7 +29,7 @@ fn ref_script(w: &[u8], sc: &[Sop]) -> (Vec<i128>, usize) {
     (log, pos)
 }
 
-fn random_sop(rng: &mut Rng, l: usize) -> Sop {
+pub fn random_sop(rng: &mut Rng, l: usize) -> Sop {
     let around = |rng: &mut Rng| -> usize { match rng.below(6) { 0 => 0, 1 => 1, 2 => l.saturating_sub(1), 3 => l, 4 => l + 1, _ => rng.below(l as u64 + 3) as usize } };
     match rng.below(14) {
         0 | 1 => Sop::Request(if rng.chance(1, 12) { usize::MAX - rng.below(3) as usize } else { around(rng) }), 2 => Sop::Slice, 3 => Sop::Bytes(around(rng), around(rng)), 4 | 5 => Sop::Advance(around(rng)),
